@@ -22,6 +22,7 @@ enum {
   OBJ_PIPE_BASE = 32  /* +2n: read end of pipe n, +2n+1: write end          */
 };
 
+enum { PLAN_KILL = 1, PLAN_WAIT = 2 };
 enum { FATE_NONE = 0, FATE_EXECED = 1, FATE_FAILED = 2, FATE_RETURNED = 3 };
 
 struct ghost {
@@ -86,6 +87,13 @@ struct ghost {
   int want_exit_fd;
   const char *want_file; char *const *want_argv; char **want_env;
   int want_cwd_id;
+  /* ---- stop-sequence monitor (C07/C15): the expected OS-level steps ----------- */
+  bool plan_on;
+  int plan_n, plan_pos;
+  int plan_kind[8];          /* PLAN_KILL / PLAN_WAIT                          */
+  int plan_arg[8];           /* signal number / raw action timeout             */
+  int plan_invalid_at;       /* step position of the first out-of-range action, or -1 */
+  int64_t plan_deadline;     /* the handle's deadline (-1: none)               */
   /* strdup / path_prepend_cwd / strv_concat provenance */
   const char *dup_src; char *dup_ptr;
 };
@@ -171,7 +179,11 @@ void verif_fill(void *p, size_t n);
 /* every OS-contract precondition and harness assertion carries its label */
 #define V_ASSERT(label, c) __CPROVER_assert((c), label)
 /* canaries must FAIL: they prove the place is reachable (DESIGN §2.8-2) */
+#ifdef VERIF_NO_CANARY
+#define V_CANARY(label) ((void) 0)
+#else
 #define V_CANARY(label) __CPROVER_assert(0, "canary/" label)
+#endif
 
 void ghost_init(void);      /* nondeterministic, well-formed initial OS state */
 bool ghost_wf(void);
